@@ -411,9 +411,9 @@ def _vals(res, shape):
     return np.asarray(v).reshape(shape)
 
 
-def _propagate_body(S, shape, spacing):
+def _propagate_body(S, shape, spacing, wavelen=0.66):
     _setup(S)
-    img, vals = _image(S, shape, cplx=True, spacing=spacing)
+    img, vals = _image(S, shape, cplx=True, spacing=spacing, wavelen=wavelen)
     d1, d2 = S.real('d1', nonzero=True), S.real('d2', nonzero=True)
     S.assume(d1 + d2 != 0)
     r0 = propagate(img, 0)
@@ -423,7 +423,7 @@ def _propagate_body(S, shape, spacing):
     S.claim('dims', set(r1.dims) >= {'x', 'y'})
     S.claim('coords_x', bool(np.allclose(r1.x.values, img.x.values)))
     S.claim('coords_y', bool(np.allclose(r1.y.values, img.y.values)))
-    S.claim('attrs_kept', r1.attrs.get('medium_index') == 1.33 and r1.attrs.get('illum_wavelen') == 0.66)
+    S.claim('attrs_kept', r1.attrs.get('medium_index') == 1.33 and r1.attrs.get('illum_wavelen') == wavelen)
     r1sq = r1.squeeze('z') if 'z' in r1.dims else r1
     r12 = propagate(r1, d2)
     rsum = propagate(img, d1 + d2)
@@ -443,6 +443,14 @@ def propagate_2x2(S):
             stubs=['np.fft.fft2/ifft2 := exact symbolic DFT'])
 def propagate_3x2(S):
     _propagate_body(S, (3, 2), 0.4)
+
+
+@obligation('C17.propagate.2x2_metres', functions=PR, nvalid=2, timeout_s=120,
+            bounds='2x2 complex image in SI units (wavelength 6.6e-7, spacing 5e-7), symbolic distances: the same '
+                   'identities hold when all lengths are ~1e-7 (no absolute length tolerance anywhere)',
+            stubs=['np.fft.fft2/ifft2 := exact symbolic DFT'])
+def propagate_2x2_metres(S):
+    _propagate_body(S, (2, 2), 5e-7, wavelen=6.6e-7)
 
 
 @obligation('C17.propagate.3x4', functions=PR, nvalid=1, timeout_s=240, tier='thorough',
@@ -482,6 +490,10 @@ def propagate_linear(S):
     S.claim('list0_has_z', 'z' in lst0.dims and lst0.sizes['z'] == 2)
     S.claim_eq('list0[0]', _vals(lst0.isel(z=0), shape), va)
     S.claim_eq('list0[1]', _vals(lst0.isel(z=1), shape), _vals(pa, shape))
+    lst1 = propagate(a, [d, 0])
+    S.claim('list_d0_has_z', 'z' in lst1.dims and lst1.sizes['z'] == 2)
+    S.claim_eq('list_d0[0]', _vals(lst1.isel(z=0), shape), _vals(pa, shape))
+    S.claim_eq('list_d0[1]', _vals(lst1.isel(z=1), shape), va)
 
 
 def _abs2(v):
